@@ -171,6 +171,11 @@ fn tick(s: &mut Scn, log: &mut Log, f: &mut dyn FnMut(&Scn, &Incoming) -> Reply)
 }
 
 pub fn calls_case(r: &mut Rng, n_calls: usize, flavour: u8) -> String {
+    calls_case_x(r, n_calls, flavour, None)
+}
+
+/// `forced`: the calls are mutable puts to one key with exactly these (seq, cas), a few ticks apart, and nothing else
+pub fn calls_case_x(r: &mut Rng, n_calls: usize, flavour: u8, forced: Option<Vec<(i64, Option<i64>)>>) -> String {
     let n_peers = 5;
     let mut s = Scn::new(r, n_peers, false, Default::default());
     let sk = SigningKey::from_bytes(&[5u8; 32]);
@@ -220,7 +225,7 @@ pub fn calls_case(r: &mut Rng, n_calls: usize, flavour: u8) -> String {
     for i in 0..n_calls {
         let silent: Vec<bool> = (0..n_peers).map(|p| p != 0 && r.chance(1, 4)).collect();
         let c = log.chans.len();
-        match r.below(5) {
+        match if forced.is_some() { 4 } else { r.below(5) } {
             0 => {
                 let (tx, rx) = flume::unbounded();
                 let t = if r.chance(2, 3) { *r.pick(&targets) } else { Id::from({ let mut b = [0u8; 20]; for x in b.iter_mut() { *x = r.byte(); } b }) };
@@ -259,9 +264,11 @@ pub fn calls_case(r: &mut Rng, n_calls: usize, flavour: u8) -> String {
                 } else {
                     ((i % 4) as i64, None)
                 };
+                let (kind, seq, cas) = match &forced { Some(f) => (1u8, f[i].0, f[i].1), None => (kind, seq, cas) };
+                let val = if forced.is_some() { format!("forced {}", i) } else { val };
                 let request = make_request(r, kind, seq, cas, val.as_bytes(), &sk);
                 let t = *request.target();
-                if r.chance(1, 4) {
+                if forced.is_none() && r.chance(1, 4) {
                     // find_node on the same target first (closest nodes without tokens)
                     let (tx2, rx2) = flume::unbounded();
                     s.node.actor.verif_get(request_of(0, t), ResponseSender::ClosestNodes(tx2));
@@ -284,7 +291,7 @@ pub fn calls_case(r: &mut Rng, n_calls: usize, flavour: u8) -> String {
                 log.steps.push(format!("(EvPut {} {} {} {}, {})", log.pool.idx(&t), c, m, boolean(cached), o));
             }
         }
-        for _ in 0..(if flavour == 2 { r.range(6, 30) } else { r.range(1, 6) }) {
+        for _ in 0..(if forced.is_some() { r.range(0, 4) } else if flavour == 2 { r.range(6, 30) } else { r.range(1, 6) }) {
             let dup = r.chance(1, 5);
             let sl = silent.clone();
             let mut extra: Vec<(usize, std::net::SocketAddrV4, u32, MessageType)> = Vec::new();
@@ -303,7 +310,7 @@ pub fn calls_case(r: &mut Rng, n_calls: usize, flavour: u8) -> String {
                 s.peers[p].send(from, tid, mt, false, None);
             }
         }
-        if r.chance(1, 5) {
+        if forced.is_none() && r.chance(1, 5) {
             s.advance(r.range(100, 2500));
         }
     }
@@ -368,6 +375,11 @@ pub fn generate(seed: u64, scale: usize) -> Cases {
     for _ in 0..(4 * scale) {
         let n = r.range(4, 12) as usize;
         cases.push("calls_repeated_targets_silent_stores", calls_case(&mut r, n, 2));
+    }
+    // two overlapping mutable puts for every relation of the second to the first, then nothing: whoever is parked must
+    // still be told (a refused second call must not take the first one's query with it)
+    for (seq2, cas2) in [(9i64, None), (9, Some(10i64)), (9, Some(9)), (10, None), (10, Some(10)), (11, None), (11, Some(10)), (11, Some(9)), (11, Some(11))] {
+        cases.push("two_mutable_puts_then_quiet", calls_case_x(&mut r, 2, 0, Some(vec![(10, None), (seq2, cas2)])));
     }
     cases
 }
